@@ -257,6 +257,65 @@ func (e *Engine) extraChecks(prop, tier string) *extraResult {
 		}
 		r.obls = append(r.obls, e.directObl("dict.init#table.parent_chain_acyclic", []string{"C17"}, acyclic, fmt.Sprintf("%v", pm)))
 	}
+	// "loading further dictionaries never makes a previously resolvable AVP, command or application id unresolvable":
+	// decided structurally over the SSA of the whole repository - no function deletes from a map of one of the five index
+	// types, clears one, or stores a map into an index field of a Parser, except the once-only initialisation closure of
+	// Load. Every other modification is a map update (insert or overwrite of one key), so the key set of every index only
+	// grows once the first Load has run.
+	{
+		dsp := e.spkgs[repoModule+"/diam/dict"]
+		var bad []string
+		idxField := map[string]bool{"appcode": true, "apptype": true, "avpname": true, "avpcode": true, "command": true}
+		idxTypes := map[string]bool{}
+		if dsp != nil {
+			if pt := dsp.Pkg.Scope().Lookup("Parser"); pt != nil {
+				if st, ok := pt.Type().Underlying().(*types.Struct); ok {
+					for i := 0; i < st.NumFields(); i++ {
+						if idxField[st.Field(i).Name()] {
+							idxTypes[st.Field(i).Type().String()] = true
+						}
+					}
+				}
+			}
+		}
+		if len(idxTypes) != 5 {
+			bad = append(bad, fmt.Sprintf("expected five index fields in dict.Parser, found %d", len(idxTypes)))
+		}
+		for fn := range e.allFunctions() {
+			if fn.Pkg == nil || !e.isRepoPkg(fn.Pkg.Pkg.Path()) || strings.HasSuffix(e.prog.Fset.Position(fn.Pos()).Filename, "_test.go") {
+				continue
+			}
+			name := e.canon(fn)
+			for _, b := range fn.Blocks {
+				for _, in := range b.Instrs {
+					switch x := in.(type) {
+					case *ssa.Call:
+						if bi, ok := x.Call.Value.(*ssa.Builtin); ok && (bi.Name() == "delete" || bi.Name() == "clear") && len(x.Call.Args) > 0 {
+							if idxTypes[x.Call.Args[0].Type().String()] {
+								bad = append(bad, name+": "+bi.Name()+" on an index map")
+							}
+						}
+					case *ssa.Store:
+						fa, ok := x.Addr.(*ssa.FieldAddr)
+						if !ok {
+							continue
+						}
+						pt, ok := fa.X.Type().Underlying().(*types.Pointer)
+						if !ok || pt.Elem().String() != repoModule+"/diam/dict.Parser" {
+							continue
+						}
+						st := pt.Elem().Underlying().(*types.Struct)
+						if idxField[st.Field(fa.Field).Name()] && name != "(*dict.Parser).Load$1" {
+							bad = append(bad, name+": stores a map into Parser."+st.Field(fa.Field).Name())
+						}
+					}
+				}
+			}
+		}
+		sort.Strings(bad)
+		r.obls = append(r.obls, e.directObl("dict#table.index_entries_are_never_removed", []string{"C17"}, len(bad) == 0,
+			fmt.Sprintf("no delete / clear on an index map and no store into an index field of dict.Parser outside (*dict.Parser).Load$1; violations: %v", bad)))
+	}
 	// exported constants equal the codes in the embedded dictionaries
 	dicts, err := e.embeddedDictionaries()
 	if err != nil {
